@@ -902,6 +902,59 @@ func (w *World) fieldStores(fo *types.Var) []*ssa.Store {
 	return out
 }
 
+// dynamicCallers (thorough tier only) lists module functions that the VTA call
+// graph says can call fn through an interface or a function value, and that
+// are not among its static call sites. Empty in the quick tier.
+func (w *World) dynamicCallers(fn *ssa.Function) []*ssa.Function {
+	if !w.full || fn == nil {
+		return nil
+	}
+	cg := w.CallGraph()
+	n := cg.Nodes[fn]
+	if n == nil {
+		return nil
+	}
+	static := map[*ssa.Function]bool{}
+	for _, c := range w.staticCallers(fn) {
+		static[c.Parent()] = true
+	}
+	seen := map[*ssa.Function]bool{}
+	var out []*ssa.Function
+	for _, e := range n.In {
+		caller := e.Caller.Func
+		if caller == nil || caller.Pkg == nil || !strings.HasPrefix(caller.Pkg.Pkg.Path(), M) {
+			continue
+		}
+		if e.Site != nil && e.Site.Common().StaticCallee() == fn {
+			continue
+		}
+		// synthetic wrappers (bound methods, thunks) stand for their own callers
+		if caller.Synthetic != "" {
+			continue
+		}
+		if !static[caller] && !seen[caller] {
+			seen[caller] = true
+			out = append(out, caller)
+		}
+	}
+	sort.Slice(out, func(i, j int) bool { return out[i].String() < out[j].String() })
+	return out
+}
+
+// dynamicCallerRule records, in the thorough tier, that fn has no callers
+// beyond its static call sites according to the whole-program VTA call graph.
+func (r *Report) dynamicCallerRule(fn *ssa.Function, why string) {
+	if !r.W.full || fn == nil {
+		return
+	}
+	dyn := r.W.dynamicCallers(fn)
+	var names []string
+	for _, f := range dyn {
+		names = append(names, fnName(f))
+	}
+	r.Decide("callgraph", "VTA call graph: "+fnName(fn)+" is reached only through its static call sites", len(dyn) == 0, "no interface / function-value edge into it from module code", fmt.Sprintf("%v can call it dynamically (%s)", names, why), fn.Pos())
+}
+
 // staticCallers lists call sites in the module whose static callee is fn.
 func (w *World) staticCallers(fn *ssa.Function) []ssa.CallInstruction {
 	var out []ssa.CallInstruction
